@@ -152,6 +152,17 @@ def run(check: Check):
     ff = FuncFlow.of(repo, fi)
     check.analysed(fi)
     p_tree, p_rng = fi.positional_params[:2]
+    # roles: LEAVES, TREEDEF = tree_flatten(<tree param>); KEYS = split(<rng param>, len(LEAVES))
+    LEAVES = TREEDEF = None
+    for ds in ff.rd.defs_at.values():
+      for d in ds:
+        v = d.value
+        if isinstance(v, ast.Call) and ff.ext(v.func) == 'jax.tree_util.tree_flatten' and v.args and ff.param_of(v.args[0]) == p_tree and d.index:
+          if d.index == (0,):
+            LEAVES = d.name
+          elif d.index == (1,):
+            TREEDEF = d.name
+    leaves_ok = LEAVES is not None
     split_ok = False
     keys_name = None
     for ds in ff.rd.defs_at.values():
@@ -159,22 +170,20 @@ def run(check: Check):
         v = d.value
         if isinstance(v, ast.Call) and ff.ext(v.func) == 'jax.random.split' and len(v.args) == 2 and ff.param_of(v.args[0]) == p_rng:
           keys_name = d.name
-          split_ok = isinstance(v.args[1], ast.Call) and ff.ext(v.args[1].func) == 'builtins.len' and txt(v.args[1].args[0]) == 'leaves'
-    leaves_ok = any(d.name == 'leaves' and isinstance(d.value, ast.Call) and ff.ext(d.value.func) == 'jax.tree_util.tree_flatten' and ff.param_of(
-        d.value.args[0]) == p_tree for ds in ff.rd.defs_at.values() for d in ds)
+          split_ok = isinstance(v.args[1], ast.Call) and ff.ext(v.args[1].func) == 'builtins.len' and txt(v.args[1].args[0]) == LEAVES
     zip_ok = False
     call_ok = False
     for n in ff.cfg.nodes:
       if n.kind == 'for' and isinstance(n.ast.iter, ast.Call) and ff.ext(n.ast.iter.func) == 'builtins.zip':
         za = [txt(a) for a in n.ast.iter.args]
-        zip_ok = za[:2] == ['leaves', keys_name] and len(za) == n_iter
+        zip_ok = za[:2] == [LEAVES, keys_name] and len(za) == n_iter
         tg = [t.id for t in n.ast.target.elts]
         target_fn = f'{MOD}:' + q.replace('_pytree', '')
         for c in ast.walk(n.ast):
           if isinstance(c, ast.Call) and wmean.repo_fn(ff, c) == target_fn:
             call_ok = [txt(a) for a in c.args] == tg
     unflat = any(isinstance(rv, (ast.Call, ast.Tuple)) for _, rv in ff.returns()) and any(
-        ff.ext(c.func) == 'jax.tree_util.tree_unflatten' and txt(c.args[0]) == 'tree_def' for _, c in ff.calls())
+        ff.ext(c.func) == 'jax.tree_util.tree_unflatten' and txt(c.args[0]) == TREEDEF for _, c in ff.calls())
     check.ob('R-SIB.rotation', fi, f'{q}: keys = split(rng, len(leaves)); zip(leaves, keys{", shapes" if n_iter == 3 else ""})',
              split_ok and leaves_ok and zip_ok and call_ok and unflat,
              f'leaf i of the flattened tree is paired with key i (split={split_ok}, leaves from the argument={leaves_ok}, zip order='
